@@ -1080,6 +1080,9 @@ class Engine:
             return self.iterspec(mk_tuple([mk_str(k) for k in keys]), fr)
         if x.k == "str":
             raise Unsupported("iteration over a string")
+        if x.k == "py" and isinstance(x.t, ExtRef) and x.t.recv is not None and x.t.recv.k in ("V", "obj"):
+            # a data attribute of a dynamic value used as an iterable (dataset.dims): opaque collection
+            return self.iterspec(mk_V(self.as_V(x)), fr)
         raise Unsupported(f"iteration over {x.k}")
 
     def materialize(self, x, fr):
